@@ -3,7 +3,7 @@ From Coq Require Import ZArith List Bool.
 Import ListNotations.
 Require Import GV.Gen.Consts GV.Model.Outcome GV.Model.J1939 GV.Model.Governor GV.Model.Hcu GV.Model.Object
   GV.Model.HcuUnit GV.Model.Units GV.Model.Volvo GV.Model.Authority GV.Proofs.C10_proof
-  GV.Model.CanNet GV.Model.Auth_io GV.Spec.C10_spec GV.Proofs.C10_whole GV.Proofs.C10_names.
+  GV.Model.CanNet GV.Model.Auth_io GV.Spec.C10_spec GV.Proofs.C10_whole GV.Proofs.C10_names GV.Model.C10_io GV.Proofs.C10_fail.
 Local Open Scope Z_scope.
 
 (* Healthy is published only if at least one message has been accepted and the last one is
@@ -88,3 +88,12 @@ Theorem C10 : forall c, c10_wf c = true -> c10_spec_ok c (amodel c) = true.
 Proof. exact c10_holds_all. Qed.
 Check C10 : forall c, c10_wf c = true -> c10_spec_ok c (amodel c) = true.
 Print Assumptions C10.
+
+(* ... also when the interface refuses every write during some of the control cycles (FTickFail): the
+   statuses of all units are derived and published exactly as in the same history with working cycles *)
+Theorem C10_under_write_failures : forall c fe,
+  ac_events c = map ferase fe -> c10_wf c = true -> c10_spec_ok c (fmodel c fe) = true.
+Proof. exact c10_under_write_failures. Qed.
+Check C10_under_write_failures : forall c fe,
+  ac_events c = map ferase fe -> c10_wf c = true -> c10_spec_ok c (fmodel c fe) = true.
+Print Assumptions C10_under_write_failures.
